@@ -41,10 +41,27 @@ func init() {
 	}
 	Register(&Check{
 		ID: "C26", World: "C/transmission", Gen: genTransmit, Run: runTransmit, Simplify: simplifyTransmit,
-		OwnProbes: []string{"batch_split_by_body_size", "oversized_event_dropped", "retry_after_429_503", "retry_after_timeout", "no_retry_bad_retry_after", "pending_sent_by_stop", "batch_dispatched_by_size", "short_response", "batch_waited_for_its_sender"},
+		OwnProbes: []string{"batch_split_by_body_size", "oversized_event_dropped", "retry_after_429_503", "retry_after_timeout", "no_retry_bad_retry_after", "pending_sent_by_stop", "batch_dispatched_by_size", "short_response", "batch_waited_for_its_sender", "enqueue_overlapped_by_second_producer"},
 		Real:      []string{"transmit.DirectTransmission (EnqueueEvent, sendBatch, dispatchStaleBatches, Stop)", "net/http.Client (real, timeout on simulated time)", "zstd + msgpack encoding", "metrics.MultiMetrics"},
 		Stub:      []string{"network and Honeycomb API (SimNet: per-attempt behaviour from the plan)", "clock (SimClock: the dispatch ticker is delivered by the driver)", "config (MockConfig)", "logger (NullLogger)"},
 	})
+}
+
+// upHookMetrics is the Metrics the transmission gets: the real MultiMetrics,
+// whose Up can run a hook first - the transmission counts an event as queued in
+// the middle of EnqueueEvent, which is the seam for "a second producer enqueues
+// at the same time".
+type upHookMetrics struct {
+	metrics.Metrics
+	hook func()
+}
+
+func (m *upHookMetrics) Up(name string) {
+	if h := m.hook; h != nil && strings.HasSuffix(name, "queued_items") {
+		m.hook = nil
+		h()
+	}
+	m.Metrics.Up(name)
 }
 
 type txDest struct{ host, key, dataset string }
@@ -114,7 +131,9 @@ func genTransmit(r *Rng, tier string, p *Plan) {
 		if big {
 			pad = int64(PickOf(r, 10, 400_000, 400_000, 999_000, 999_900, 1_000_100, 1_200_000))
 		}
-		p.Add(Op{K: "ev", At: now, I: int64(pick[r.Intn(nd)]), N: pad, M: int64(PickOf(r, 0, 1, 7, 1<<31-1))})
+		// B: while this event is being enqueued (at the point where the transmission
+		// counts it as queued) a second producer enqueues one more for the same destination
+		p.Add(Op{K: "ev", At: now, I: int64(pick[r.Intn(nd)]), N: pad, M: int64(PickOf(r, 0, 1, 7, 1<<31-1)), B: !big && r.Bool(0.15)})
 	}
 	if r.Bool(0.25) && now > 0 {
 		// senders held up for a while: batches taken off the pending list wait to
@@ -188,7 +207,8 @@ func runTransmit(t *testing.T, p *Plan) *Outcome {
 		maxBatch := int(p.N["max_batch"])
 		bt := us(p.N["batch_timeout_us"])
 		tx := transmit.NewDirectTransmission(types.TransmitTypeUpstream, net.Transport(), maxBatch, bt, us(p.N["send_timeout_us"]), p.On("compress"), map[string]string{"X-Extra": "1"})
-		tx.Config, tx.Logger, tx.Metrics, tx.Version, tx.Clock = cfg, &logger.NullLogger{}, mm, "verif", clk
+		upm := &upHookMetrics{Metrics: mm}
+		tx.Config, tx.Logger, tx.Metrics, tx.Version, tx.Clock = cfg, &logger.NullLogger{}, upm, "verif", clk
 		if err := tx.Start(); err != nil {
 			out.Harness = err.Error()
 			return
@@ -347,7 +367,27 @@ func runTransmit(t *testing.T, p *Plan) *Outcome {
 					ev := &types.Event{Context: context.Background(), APIHost: d.host, APIKey: d.key, Dataset: d.dataset, SampleRate: uint(op.M),
 						Timestamp: time.Unix(1700000000+int64(op.ID), 123000000).UTC(), Data: pl}
 					events[id] = &txEvent{op: op, id: id, dest: d, enqAt: time.Now(), bodies: map[string]bool{}, oversize: op.N >= 1_000_000}
+					if op.B {
+						id2 := id + "b"
+						data2 := map[string]any{"id": id2, "n": op.ID}
+						if op.N > 0 {
+							data2["pad"] = strings.Repeat("x", int(op.N))
+						}
+						pl2 := types.NewPayload(cfg, data2)
+						ev2 := &types.Event{Context: context.Background(), APIHost: d.host, APIKey: d.key, Dataset: d.dataset, SampleRate: uint(op.M),
+							Timestamp: time.Unix(1700000000+int64(op.ID), 123000000).UTC(), Data: pl2}
+						events[id2] = &txEvent{op: op, id: id2, dest: d, enqAt: time.Now(), bodies: map[string]bool{}}
+						upm.hook = func() {
+							gid := make(chan int64, 1)
+							done := make(chan struct{})
+							go func() { gid <- goid(); tx.EnqueueEvent(ev2); close(done) }()
+							awaitGoroutine(<-gid, done)
+							<-done
+							out.Probe("enqueue_overlapped_by_second_producer")
+						}
+					}
 					tx.EnqueueEvent(ev)
+					upm.hook = nil
 				case "park_send":
 					gate.Park()
 					out.Fault("senders_held")
